@@ -154,7 +154,7 @@ func keys(m map[int]*connState) []int {
 // (task) on which each of them was served.
 func (w *World) lbOracle() {
 	c := w.p.Cfg
-	if c.ReusePort || c.Loops < 1 || w.p.Cfg.Network == "udp" || c.Client {
+	if c.ReusePort || c.Loops < 1 || w.p.Cfg.Network == "udp" || c.Client || w.multi() && c.LB == 0 {
 		return
 	}
 	for _, cp := range w.p.Conns {
